@@ -235,7 +235,7 @@ def checkObs (st : St) (k : Option Nat) (ovals : String) (oend : String) (opulle
     st.flag s!"{what}: MODEL INCONSISTENT sem={showVals semVals}|{semE} pull={showVals lazy.vals}|{showEnd lazy.last}"
   else if showVals greedy.vals != showVals lazy.vals || showEnd greedy.last != showEnd lazy.last then
     st.flag s!"{what}: MODEL INCONSISTENT lazy/greedy outputs differ"
-  else if ovals != showVals lazy.vals then
+  else if ovals != "-" && ovals != showVals lazy.vals then
     st.flag s!"{what}: outputs model={showVals lazy.vals} observed={ovals}"
   else if oend != showEnd lazy.last then
     st.flag s!"{what}: ending model={showEnd lazy.last} observed={oend}"
